@@ -103,6 +103,53 @@ def check_scalar(case, acc=None):
     return plan
 
 
+def unmapped_zone_cases():
+    """sequences of date-times in which official Haystack zone names that this host's zone database does not map (the
+    reader keeps the stated offset for them) alternate with mapped ones and repeat"""
+    from hszinc import zoneinfo
+    mapped = zoneinfo.get_tz_map()
+    official = getattr(zoneinfo, 'HAYSTACK_TIMEZONES_SET', None) or ()
+    unmapped = sorted(n for n in official if n not in mapped)[:24] or ['Knox', 'Ushuaia', 'Vevay']
+    ms = [['Brisbane', 600], ['UTC', 0], ['Honolulu', -600], ['Kolkata', 330], ['Tokyo', 540]]
+    for i, u in enumerate(unmapped):
+        u2 = unmapped[(i + 5) % len(unmapped)]
+        m1, m2 = ms[i % len(ms)], ms[(i + 2) % len(ms)]
+        off = [-300, -360, -180, 60, 345][i % 5]
+        seq = [m1 + ['2021-06-01T12:00:00'], [u, off, '2021-06-01T12:00:00'], [u, off, '2021-06-01T13:30:00.250'], m2 + ['2021-01-01T00:00:00'],
+               [u, off - 60, '2021-12-01T08:00:00'], [u2, off, '2021-06-01T12:00:00'], [u, off, '2021-06-01T12:00:00'], m1 + ['2021-06-02T12:00:00'],
+               [u2, off + 60, '2021-06-01T12:00:00'], [u2, off + 60, '2021-06-01T12:00:01']]
+        for ver in ('2.0', '3.0'):
+            yield {'zone-sequence': seq, 'ver': ver, 'as': 'cells' if i % 2 else 'scalars'}
+            yield {'zone-sequence': seq[1:], 'ver': ver, 'as': 'scalars' if i % 2 else 'cells'}
+
+
+def check_zone_sequence(case):
+    import datetime
+    import hszinc
+    seq, ver = case['zone-sequence'], case['ver']
+
+    def spell(name, off, local):
+        sign = '-' if off < 0 else '+'
+        o = 'Z' if (off == 0 and name == 'UTC') else '%s%02d:%02d' % (sign, abs(off) // 60, abs(off) % 60)
+        return '%s%s %s' % (local, o, name)
+
+    def want(name, off, local):
+        t = datetime.datetime.fromisoformat(local) - datetime.timedelta(minutes=off)
+        return ['dt', t.strftime('%Y-%m-%dT%H:%M:%S.%f'), off * 60, name]
+    toks = [spell(*x) for x in seq]
+    wants = [want(*x) for x in seq]
+    if case['as'] == 'cells':
+        txt = 'ver:"%s" first:%s\nts,n\n' % (ver, toks[0]) + ''.join('%s,%d\n' % (t, i) for i, t in enumerate(toks))
+        g = guarded('parse-raises', dict(case, text=txt), hszinc.parse, txt, mode=hszinc.MODE_ZINC, single=True)
+        got = [model.to_model(r['ts']) for r in g]
+    else:
+        got = [model.to_model(guarded('parse-raises', dict(case, text=t), hszinc.parse_scalar, t, mode=hszinc.MODE_ZINC, version=ver)) for t in toks]
+    for i, (w, b, t) in enumerate(zip(wants, got, toks)):
+        d = model.diff(w, b, dt_by_instant=True)
+        if d:
+            raise Violation('decoded-other-value', case, 'date-time %d of the sequence, %r: %s' % (i, t, d), ('zone-sequence',))
+
+
 def catalogue_for_table(ver):
     out = []
     for m in gen.catalogue_scalars(ver):
@@ -125,6 +172,7 @@ def plan(tier, seed, excl):
     t += [('scalars', {'shard': i, 'n': 2000 if q else 50000}) for i in range(4)]
     t += [('docs', {'shard': i, 'n': 300 if q else 8000}) for i in range(16)]
     t.append(('empty', {}))
+    t.append(('unmapped-zones', {}))
     t += [('sizes', {'shard': i, 'of': 8, 'tier': tier}) for i in range(8)]
     return t
 
@@ -179,6 +227,17 @@ def run(part, args, env):
                      input='str' if n % 4 else 'bytes:utf-8')
             check_doc(c, acc)
         sizes_part(acc, args, one)
+    elif part == 'unmapped-zones':
+        n = 0
+        for case in unmapped_zone_cases():
+            try:
+                check_zone_sequence(case)
+                acc.case(case, True, labels=('unmapped-zone-sequence',))
+                n += 1
+                if n % 15 == 1:
+                    acc.sample(case)
+            except Violation as v:
+                acc.violation(v)
     elif part == 'empty':
         for single in (True, False):
             for inp in ('str', 'bytes:utf-8'):
@@ -231,6 +290,8 @@ def run(part, args, env):
 
 
 def replay(stage, case):
+    if 'zone-sequence' in case:
+        return check_zone_sequence(case)
     case = dict(case)
     case.pop('text', None)
     if case['kind'] == 'scalar':
